@@ -52,8 +52,23 @@ BegSet == {NoEl, NoVal, Val("["), Val("")}
 EndSet == {NoEl, NoVal, Val("]"), Val("")}
 FNames == {<<>>, << <<R(<<"s", "i", "n">>)>> >>, << <<R(<<"f">>)>> >>, << <<R(<<"l", "i", "m">>), R(<<WS>>)>> >>}
 
+\* function names for the wide part: table entries, proper extensions of entries (the whole name must
+\* survive), prefixes of entries, unknown names, names split over two runs, structured m:fName content
+\* (m:limLow / m:limUpp = an element without template, scripts inside the name)
+W(s) == << <<R(s)>> >>
+FNamesWide == FNames \cup
+    {W(<<"s", "i", "n", "h">>), W(<<"c", "o", "s", "h">>), W(<<"t", "a", "n", "h">>),
+     W(<<"a", "r", "c", "s", "i", "n">>), W(<<"l", "o", "g", "i", "t">>), W(<<"l", "i", "m", "s", "u", "p">>),
+     W(<<"m", "a", "x", "i">>), W(<<"e", "x", "p", "o">>), W(<<"m", "i", "n", "u", "s">>),
+     W(<<"s", "i">>), W(<<"l", "o">>), W(<<"l", "n">>), W(<<"l", "n", "x">>), W(<<"g">>),
+     << <<R(<<"s", "i", "n">>), R(<<"h">>)>> >>,
+     << <<[k |-> "box", kids |-> <<R(<<"l", "i", "m">>), R(<<"x", "U+2192", "0">>)>>]>> >>,
+     << <<[k |-> "box", kids |-> <<R(<<"l", "i", "m">>)>>]>> >>,
+     << <<[k |-> "sSub", e |-> W(<<"l", "o", "g">>), sub |-> W(<<"2">>)]>> >>,
+     << <<[k |-> "sSup", e |-> W(<<"s", "i", "n">>), sup |-> W(<<"2">>)]>> >>}
+
 \* structural elements whose slots range over S, e-lists over contents C, attributes over the given sets
-Struct(S, C, chrN, chrA, begs, ends) ==
+Struct(S, C, chrN, chrA, begs, ends, fns) ==
     {[k |-> "f", num |-> a, den |-> b] : a \in S, b \in S}
     \cup {[k |-> "sSup", e |-> a, sup |-> b] : a \in S, b \in S}
     \cup {[k |-> "sSub", e |-> a, sub |-> b] : a \in S, b \in S}
@@ -64,13 +79,13 @@ Struct(S, C, chrN, chrA, begs, ends) ==
               es \in {<<>>} \cup {<<c>> : c \in C} \cup {<<c, <<R(<<"b">>)>> >> : c \in C}}
     \cup {[k |-> "m", rows |-> rs] : rs \in {<<>>} \cup {<< <<c>> >> : c \in C}
               \cup {<< <<c, <<R(<<"b">>)>> >>, << <<R(<<"a">>)>>, c >> >> : c \in C}}
-    \cup {[k |-> "func", fName |-> f, e |-> a] : f \in FNames, a \in S}
+    \cup {[k |-> "func", fName |-> f, e |-> a] : f \in fns, a \in S}
     \cup {[k |-> "bar", e |-> a] : a \in S}
     \cup {[k |-> "acc", chr |-> h, e |-> a] : h \in chrA, a \in S}
     \cup {[k |-> "box", kids |-> c] : c \in C}
 
 CW == Contents(TextsWide)
-WideAll == IF ~Is({"wideN", "wideO"}) THEN {} ELSE Struct(Slots(CW) \cup DupSlots, CW, ChrNary, ChrAcc, BegSet, EndSet)
+WideAll == IF ~Is({"wideN", "wideO"}) THEN {} ELSE Struct(Slots(CW) \cup DupSlots, CW, ChrNary, ChrAcc, BegSet, EndSet, FNamesWide)
 Wide == {n \in WideAll : (n.k = "nary" /\ Is({"wideN"})) \/ (n.k # "nary" /\ Is({"wideO"}))}
 
 CN == Contents(TextsNarrow)
@@ -78,7 +93,7 @@ NarrowAttrN == {NoEl, Val("U+2211")} \cup (IF Thorough THEN {NoVal} ELSE {})
 NarrowAttrA == {NoEl, Val("U+0303")}
 Narrow == {n \in Struct(Slots(CN), CN, NarrowAttrN, NarrowAttrA,
                            {NoEl, Val("[")} \cup (IF Thorough THEN {NoVal} ELSE {}),
-                           {NoEl} \cup (IF Thorough THEN {Val("]")} ELSE {})) : Thorough \/ n.k # "sSub"}
+                           {NoEl} \cup (IF Thorough THEN {Val("]")} ELSE {}), FNames) : Thorough \/ n.k # "sSub"}
 
 \* depth 2: exactly one slot holds a narrow element (thorough: optionally with a run before /
 \* after), the other slots are tiny
